@@ -223,14 +223,13 @@ def sampleRaw : Tmpl :=
           (.seq (.text ['a', 'b']) (.expr .boom [])))
     (.seq (.text ['x']) (.seq (.expr (.call 1 [.lit ['q']]) []) (.text ['y'])))
 
-/-- `<%def name="d1()"><%def name="d2()" buffered="True" cached="True">x</%def>${'p' + d2()}</%def>${d1()}`:
-    mako ignores `buffered` on an inline cached def (`write_inline_def` passes `buffered=False` to
-    `write_cache_decorator`), so `d2()` writes `x` before the expression's own value `p` is written -/
+/-- `<%def name="d1()" buffered="True">x<% return '' %>y</%def>[${d1()}]`: the `return` sits inside the generated
+    `try`; the `finally` pops the buffer, and the `return filter(__M_buf.getvalue())` *after* the `finally` is
+    never reached - the def returns `''` and the content written before the `return` is lost -/
 def quirkTmpl : Tmpl :=
-  .seq (.def_ 1 [] noFlags
-          (.seq (.def_ 2 [] { buffered := true, filters := [], cached := true, deco := false } (.text ['x']))
-                (.expr (.cat (.lit ['p']) (.call 2 [])) [])))
-       (.expr (.call 1 []) [])
+  .seq (.def_ 1 [] { buffered := true, filters := [], cached := false, deco := false }
+          (.seq (.text ['x']) (.seq .ret (.text ['y']))))
+       (.seq (.text ['[']) (.seq (.expr (.call 1 []) []) (.text [']'])))
 
 /-- control-fragment sample: `a` `% for v1 in ['i', 'j']:` `% try:` `${loop.index}${boom() | flt2}` `% except:`
     `!${probe(context)}` `% endtry` `% endfor` `<%text filter="flt3">z</%text>` -/
